@@ -141,6 +141,8 @@ for cfg, prefix, root in (('q_f64', 'types_q_f64', False), ('q_dec', 'types_q_de
         register(f'{prefix}_{which}', verus_unit(f'{prefix}_{which}', types_unit(cfg, prefix, which, root)))
     if cfg in C07_ARGS:
         register(prefix.replace('types_', 'c07_'), verus_unit(prefix.replace('types_', 'c07_'), types_unit(cfg, prefix, 'c07', root), canary=False))
+        if cfg.startswith('q_'):
+            register(prefix.replace('types_', 'c14_'), verus_unit(prefix.replace('types_', 'c14_'), types_unit(cfg, prefix, 'c14', root), canary=False))
 
 # ---------------- Kani units ----------------
 import gen_kani
